@@ -853,6 +853,68 @@ func c03Frames(c *Ctx, p *Prog, m *Model) {
 	}
 	// no other function writes the three lists
 	allowed := allowedListWriters(p, m)
+	// ... except a further operation of the writer set itself whose effects have one of the documented shapes on its own
+	// lists (a new "set the writer of one level", say): judged by shape, like the named ones
+	for _, fn := range p.RepoFuncs() {
+		if allowed[fn] || fn.Parent() != nil || fn.Signature.Recv() == nil || typeName(fn.Signature.Recv().Type()) != "dualWriter" {
+			continue
+		}
+		recv := receiver(fn)
+		var wparam, lparam *ssa.Parameter
+		for _, q := range fn.Params[1:] {
+			if m.isLevel(q.Type()) {
+				lparam = q
+			} else if _, isI := q.Type().Underlying().(*types.Interface); isI {
+				wparam = q
+			}
+		}
+		effs := te.effectsOf(fn, nil)
+		n, shape := 0, ""
+		var probs []string
+		for _, ef := range effs {
+			if ef.Struct != "dualWriter" {
+				continue
+			}
+			n++
+			pos := p.Pos(instrPos(ef.Instr))
+			if !ef.Base.isParam(recv) {
+				probs = append(probs, "writes a list of another writer set at "+pos)
+				continue
+			}
+			isOld := func(t *Term) bool {
+				if ef.Kind == "mapupdate" {
+					return t.Op == "lookup" && len(t.Args) == 2 && t.Args[0].isFieldOf(recv, "leveled") && lparam != nil && t.Args[1].isParam(lparam)
+				}
+				return t.isFieldOf(recv, ef.Field)
+			}
+			if ef.Kind == "mapupdate" && (lparam == nil || !ef.Key.isParam(lparam)) {
+				probs = append(probs, "updates leveled under a key other than its level parameter at "+pos)
+				continue
+			}
+			if ef.Kind != "store" && ef.Kind != "mapupdate" {
+				probs = append(probs, "unexpected "+ef.Kind+" at "+pos)
+				continue
+			}
+			for _, a := range ef.Val.alts() {
+				switch {
+				case a.Op == "nil" || a.Op == "makemap":
+				case a.Op == "append" && len(a.Args) >= 2 && isOld(a.Args[0]) && wparam != nil && a.Args[1].mentionsParam(wparam):
+					shape = "add"
+				case wparam != nil && a.mentionsParam(wparam) && !a.contains(isOld):
+					shape = "set"
+				default:
+					probs = append(probs, "stores a list that is neither a fresh list holding the writer given nor the old list with that writer appended at "+pos)
+				}
+			}
+		}
+		if n == 0 {
+			continue
+		}
+		if len(probs) == 0 && shape != "" {
+			allowed[fn] = true
+			r.Ok("R03.3", "op:dualWriter."+fn.Name()+":further", p.FuncPos(fn), "a further operation of the writer set with the documented %s shape on its own list, keyed by its own level parameter", shape)
+		}
+	}
 	for _, fn := range p.RepoFuncs() {
 		top := fn
 		for top.Parent() != nil {
